@@ -341,6 +341,47 @@ def work_extremes(chunk):
   return res
 
 
+def work_conversions(item):
+  """line-level and graph-level version conversion called on every line of
+  the corpus documents, each call on a fresh Gfa (no string argument: the
+  input is the position of the line)"""
+  version, vlevel = item
+  res = new_result()
+  found = {}
+  doc = corpus.GFA1_DOC if version == "gfa1" else corpus.GFA2_DOC
+  extra = ([T_(["P", "pc", "A+,B-,A+", "2M1I,*"]), T_(["L", "B", "-", "A", "+", "*"]),
+            T_(["L", "C", "+", "A", "-", "*"])]
+           if version == "gfa1" else [T_(["E", "ei", "a+", "b+", "1", "2", "1", "2", "*"]),
+                                      T_(["O", "os", "a+"]), T_(["O", "*", "a+ b-"])])
+  doc = doc + extra
+  n = len(gfapy.Gfa(doc, vlevel=vlevel, version=version).lines)
+  for i in range(n):
+    for meth in ("to_gfa1_s", "to_gfa2_s", "to_gfa1", "to_gfa2"):
+      res["evaluations"] += 1
+      def fn():
+        g = gfapy.Gfa(doc, vlevel=vlevel, version=version)
+        l = g.lines[i]
+        r = getattr(l, meth)()
+        str(r)
+      r = call(fn)
+      note(res, found, r, "api:convert-" + meth, str(i), vlevel, version, "standard")
+  for meth in ("to_gfa1_s", "to_gfa2_s", "to_gfa1", "to_gfa2"):
+    res["evaluations"] += 1
+    def fn2():
+      g = gfapy.Gfa(doc, vlevel=vlevel, version=version)
+      str(getattr(g, meth)())
+    r = call(fn2)
+    note(res, found, r, "api:convert-gfa-" + meth, "-", vlevel, version, "standard")
+  res["transitions"] = res["evaluations"]
+  res["states"].add("conv:{}:{}".format(version, vlevel))
+  res["found"] = found
+  return res
+
+
+def T_(f):
+  return "\t".join(f)
+
+
 FILE_VARIANTS = [
     ("empty", b""), ("newline-only", b"\n"), ("crlf-only", b"\r\n"),
     ("no-final-newline", b"S\tA\t*"), ("final-newline", b"S\tA\t*\n"),
@@ -470,6 +511,8 @@ def run(ctx):
       at += [(version, vlevel, i) for i in range(n)]
   absorb(ctx.pmap(work_api, at, chunksize=1))
   absorb([work_files(None)])
+  absorb(ctx.pmap(work_conversions, [(v, k) for v in ("gfa1", "gfa2")
+                                     for k in (0, 1, 2, 3)], chunksize=1))
   ex = extreme_cases()
   absorb(ctx.pmap(work_extremes, [ex[i:i + 8] for i in range(0, len(ex), 8)],
                   chunksize=1))
@@ -492,6 +535,13 @@ def replay(w, ctx):
   elif e == "doc":
     r = call(lambda: use_doc(w["input"], w["vlevel"], w["version"],
                              w["dialect"]))
+  elif e.startswith("api:convert-"):
+    res = work_conversions((w["version"], w["vlevel"]))
+    for (exc, site), ww in res["found"].items():
+      out.append(mkviolation("foreign-exception", {"exc": exc, "site": site},
+                             ww, "returns or raises gfapy.Error",
+                             "{} at {}".format(exc, site), ""))
+    return out
   elif e.startswith("api:"):
     fresh, menu = api_calls(w["version"], w["vlevel"])
     fn = dict(menu)[e[4:]]
